@@ -138,6 +138,80 @@ def check_date_merge(run, fx, rs):
                 run.ok(rule, key, "merge result at month %d is not a definite Ok/Err: not decided" % m, f.loc, nontrivial=False)
 
 
+def check_merge_resolvable(run, fx, rs):
+    rule = "R3.merged-record-resolvable"
+    run.rule(rule, "the record with_fallback_* builds for a receiver that has an era (year, era and eraYear all present - the "
+                   "shape R3.date-merge establishes for the all-absent and supplied cases) is accepted by the era/year "
+                   "resolution: EraYear::try_from_partial_date folded on (Some, Some, Some) must not be a TypeError, "
+                   "otherwise `with` fails for every date of an era calendar, whatever is supplied")
+    f = rs.fn1("types::EraYear::try_from_partial_date")
+    mf = rs.fn(T + "date::PartialDate::with_fallback_date")
+    adt = rs.adts.get(T + "date::PartialDate")
+    if f is None or mf is None or adt is None:
+        run.undecided.append({"rule": rule, "key": "era-year", "gone": ["EraYear::try_from_partial_date / with_fallback_date"]})
+        return
+    names = [fl["name"] for fl in adt["variants"][0]["fields"]]
+    # 1. what the merge builds when nothing but the day is supplied and the receiver has an era
+    ev = H.Evaluator(fx)
+    ev.inline = lambda p: False
+    ev.stubs["::era"] = lambda args: H.some(H.Sym("recv-era", ()))
+    ev.stubs["::era_year"] = lambda args: H.some(H.Sym("recv-era-year", ()))
+    vals = {n: H.NONE_V for n in names}
+    vals["day"] = H.some(H.Sym("given", ("day",)))
+    part = H.S(T + "date::PartialDate", tuple((n, vals[n]) if n != "calendar" else (n, H.Sym("given", ("calendar",))) for n in names))
+    try:
+        r = ev.call_fn(mf, [part, H.Sym("param", ("fallback",))])
+    except (H.Panic, H.Budget):
+        r = None
+    recs = [x for x in walk(r) if isinstance(x, H.S) and x.path.endswith("PartialDate") and x is not part] if r is not None else []
+    if not recs:
+        run.undecided.append({"rule": rule, "key": "era-year", "why": "the merge does not fold to a record"})
+        run.ok(rule, "era-year", "merge does not fold: not decided", mf.loc, nontrivial=False)
+        return
+    out = recs[0]
+
+    def present(n):
+        v = H.sfield(out, n)
+        # `opt.map(fallible).transpose()?`: on the success path the Option keeps its presence
+        for _ in range(4):
+            if isinstance(v, H.Sym) and v.what in ("try", "transpose") and len(v.parts) == 1:
+                v = v.parts[0]
+        if isinstance(v, H.V) and v.path == H.SOME:
+            return True
+        if v == H.NONE_V:
+            return False
+        return None
+    shape = tuple(present(n) for n in ("year", "era", "era_year"))
+    run.analysed["merged_era_year_shape"] = list(shape)
+    if None in shape:
+        run.undecided.append({"rule": rule, "key": "era-year", "why": "presence of year/era/eraYear in the merged record is not definite"})
+        run.ok(rule, "era-year", "merged record's year/era/eraYear presence is not definite: not decided", mf.loc, nontrivial=False)
+        return
+    # 2. the resolution on exactly that presence pattern
+    ev2 = H.Evaluator(fx)
+    ev2.inline = lambda p: p.startswith("temporal_rs::error::")
+    ev2.lossy = []
+    rec = H.S(T + "date::PartialDate", tuple(
+        (n, (H.some(H.Sym("param", (n,))) if shape[("year", "era", "era_year").index(n)] else H.NONE_V)) if n in ("year", "era", "era_year")
+        else (n, H.Sym("param", (n,))) for n in names))
+    try:
+        paths = ev2.paths(f, [rec], max_paths=200)
+    except (H.Budget, H.Panic):
+        paths = None
+    if not paths:
+        run.undecided.append({"rule": rule, "key": "era-year", "why": "EraYear::try_from_partial_date does not enumerate"})
+        run.ok(rule, "era-year", "resolution does not enumerate: not decided", f.loc, nontrivial=False)
+        return
+    kinds = set()
+    for dec, res, tr in paths:
+        kinds.add("Type" if (is_err(res) and err_kind(res) == "Type") else "other")
+    run.check(kinds != {"Type"}, rule, "era-year",
+              "the merged (year, era, eraYear) = %s pattern reaches a non-TypeError outcome" % (shape,),
+              "with_fallback_* builds a record with year/era/eraYear presence %s for a receiver that has an era, and "
+              "EraYear::try_from_partial_date returns a TypeError on every path for that pattern: `with` on a date of an era "
+              "calendar (gregory, japanese, roc, ...) is always a TypeError" % (shape,), f.loc)
+
+
 def check_required(run, fx, rs):
     rule = "R11.required-fields-type-error"
     run.rule(rule, "with / from_partial reach the field resolution only behind an emptiness or required-field check whose "
@@ -304,6 +378,7 @@ def main(tier):
     rs = fx["temporal_rs"]
     check_time_merge(run, fx, rs)
     check_date_merge(run, fx, rs)
+    check_merge_resolvable(run, fx, rs)
     check_required(run, fx, rs)
     check_clamps(run, fx, rs)
     # the month / monthCode consistency test looks at the month as supplied
